@@ -45,6 +45,7 @@ func GenWorld(r *rand.Rand, tmp string, prefix string, o WorldOpts) (*World, err
 		var err error
 		if o.Jumbo && i == 0 {
 			docs, sch := JumboBatch(r, 2100+r.Intn(1200), fmt.Sprintf("%s.j%d", prefix, i), tagDV)
+			AddExactTerms(r, docs, "exact", ExactSpec(len(docs)))
 			w.Schema = sch
 			s, err = BuildSeg(docs, []uint32{1025, 1024, 100}[r.Intn(3)])
 		} else if o.Jumbo {
